@@ -208,7 +208,10 @@ type scenario struct {
 	idleClose int // 0 none, 1 one connection, 2 all connections (after the callers have finished)
 	idleRST   bool
 	redial    []adnlsrv.DialPlan // fate of the first redials after the initial connections
-	storm     bool               // many callers that keep sending (mostly unanswered) queries around a burst + RST
+	// redialHold (held_test.go): parallel to redial when set; a non-nil entry turns that redial into a
+	// handshake the server accepts and then holds (late confirmation, or silence followed by a close)
+	redialHold []*holdPlan
+	storm      bool // many callers that keep sending (mostly unanswered) queries around a burst + RST
 	// auth: the client is created with an authentication key and the server serves queries only on
 	// connections that completed the tcp.authentificate exchange (server nonce of nonceSize bytes)
 	auth      bool
@@ -270,7 +273,11 @@ func (sc *scenario) String() string {
 	if sc.idleClose != 0 {
 		fmt.Fprintf(&sb, "; idle close of %s (rst=%v)", [...]string{"", "one connection", "all connections"}[sc.idleClose], sc.idleRST)
 	}
-	for _, p := range sc.redial {
+	for i, p := range sc.redial {
+		if i < len(sc.redialHold) && sc.redialHold[i] != nil {
+			fmt.Fprintf(&sb, "; redial->%v", sc.redialHold[i])
+			continue
+		}
 		fmt.Fprintf(&sb, "; redial->%v", p.Kind)
 	}
 	return sb.String()
@@ -468,6 +475,12 @@ type srvState struct {
 	edge     []edgeSlot                   // per caller: start and offset of its current kEdge call
 	pending  atomic.Int64                 // timers not yet fired
 	answered atomic.Int64
+	// held handshakes (held_test.go)
+	redialHold  []*holdPlan      // parallel to redial while it has entries
+	holds       map[int]*holdRun // by dial number
+	nonceHolds  map[int]*holdRun // by dial number: second stage, the authentication nonce is withheld
+	completed   atomic.Int64     // calls of phase A that have returned
+	callersDone chan struct{}    // closed when all callers of phase A have returned
 }
 
 func (st *srvState) noteFault() {
@@ -689,7 +702,8 @@ func startServer(sc *scenario) (*srvState, error) {
 	st := &srvState{sc: sc, records: map[string]*qRecord{}, held: map[*adnlsrv.Conn][]*heldAnswer{}, ended: map[*adnlsrv.Conn]time.Time{},
 		scripted: map[*adnlsrv.Conn]bool{}, extra: map[string]callScript{}, auths: map[*adnlsrv.Conn]*authState{},
 		edge:   make([]edgeSlot, len(sc.calls)),
-		closes: append([]closeFault{}, sc.closes...), redial: append([]adnlsrv.DialPlan{}, sc.redial...)}
+		closes: append([]closeFault{}, sc.closes...), redial: append([]adnlsrv.DialPlan{}, sc.redial...),
+		redialHold: append([]*holdPlan{}, sc.redialHold...), holds: map[int]*holdRun{}, nonceHolds: map[int]*holdRun{}, callersDone: make(chan struct{})}
 	if sc.auth {
 		st.authPub = sc.authKey().Public().(ed25519.PublicKey)
 	}
@@ -702,12 +716,26 @@ func startServer(sc *scenario) (*srvState, error) {
 			if n > sc.workers && len(st.redial) > 0 {
 				p := st.redial[0]
 				st.redial = st.redial[1:]
+				if len(st.redialHold) > 0 {
+					if h := st.redialHold[0]; h != nil {
+						st.holds[n] = &holdRun{plan: h}
+						if h.then != nil {
+							st.nonceHolds[n] = &holdRun{plan: h.then}
+						}
+						p = h.dialPlan()
+					}
+					st.redialHold = st.redialHold[1:]
+				}
 				st.noteFault()
 				return p
 			}
 			return adnlsrv.DialPlan{Kind: adnlsrv.DialServe}
 		},
+		Handshake: func(cn *adnlsrv.Conn) { st.holdHandshake(cn) },
 		Serve: func(cn *adnlsrv.Conn) {
+			if st.holdThenClose(cn) {
+				return
+			}
 			cn.Loop(func(f adnlsrv.Frame) bool {
 				if sc.auth && st.onAuthFrame(cn, f.Payload) {
 					return true
@@ -831,7 +859,7 @@ func (o *outcome) freshCall() ([]byte, []byte, error) {
 func (st *srvState) liveConns() []*adnlsrv.Conn {
 	var out []*adnlsrv.Conn
 	for _, cn := range st.srv.Conns() {
-		if closed, _ := cn.Closed(); !closed && (!st.sc.auth || st.authenticated(cn)) {
+		if closed, _ := cn.Closed(); !closed && !st.heldSilent(cn) && (!st.sc.auth || st.authenticated(cn)) {
 			out = append(out, cn)
 		}
 	}
@@ -1131,6 +1159,7 @@ func runScenario(sc *scenario) *outcome {
 				r.resp, r.err = o.cl.Request(ctx, r.payload)
 				cancel()
 				r.end = time.Now()
+				st.completed.Add(1)
 				if q.kind == kEdge {
 					ec.done(r.err == nil)
 				}
@@ -1141,7 +1170,7 @@ func runScenario(sc *scenario) *outcome {
 	t0 := time.Now()
 	close(start)
 	done := make(chan struct{})
-	go func() { wg.Wait(); close(done) }()
+	go func() { wg.Wait(); close(st.callersDone); close(done) }()
 	limit := 2*budget + 2*sc.timeout + 15*time.Second
 	select {
 	case <-done:
@@ -1244,6 +1273,31 @@ func (o *outcome) judge(c *core.Ctx) string {
 			}
 			return s
 		}
+		// Every call comes back by its deadline, with its answer or with an error. A return crosses a
+		// handful of goroutine hand-overs, hence the second of slack. A process that was visibly not keeping
+		// up excuses a late return only as far as the observed scheduling delay can explain it (twenty times
+		// the largest delay on top of the second of slack), and not at all when another caller of the same
+		// client went through ten calls of its own, begun at least 50 ms apart, between this call's
+		// deadline + 1 s and its return: the scheduler served that goroutine ten times over at least 450 ms
+		// while this one was overdue. "" = in time; "-" = late, excused.
+		dur := r.end.Sub(r.start)
+		late := func(what string) string {
+			if dur <= sc.timeout+time.Second {
+				return ""
+			}
+			lag := maxLag(r.start, r.end)
+			wit := o.witnesses(r.caller, r.start.Add(sc.timeout+time.Second), r.end)
+			switch {
+			case lag <= 50*time.Millisecond:
+				return fmt.Sprintf("LATE RETURN: %s returned %s more than 1 s after the %v deadline", desc(), what, sc.timeout)
+			case dur-sc.timeout > time.Second+20*lag:
+				return fmt.Sprintf("LATE RETURN: %s returned %s %v after the %v deadline; the largest scheduling delay during the call was %v", desc(), what, (dur - sc.timeout).Round(time.Millisecond), sc.timeout, lag)
+			case wit >= 10:
+				return fmt.Sprintf("LATE RETURN: %s returned %s %v after the %v deadline, while another caller of the same client completed %d calls (begun at least 50 ms apart) between this call's deadline + 1 s and its return (largest scheduling delay during the call %v)", desc(), what, (dur - sc.timeout).Round(time.Millisecond), sc.timeout, wit, lag)
+			}
+			c.Class("excused by a process stall")
+			return "-"
+		}
 		if r.err == nil {
 			if !bytes.Equal(r.resp, F(r.payload)) {
 				whose := byAnswer[string(r.resp)]
@@ -1255,29 +1309,16 @@ func (o *outcome) judge(c *core.Ctx) string {
 			if q.kind == kNever || q.kind == kUnknownOnly {
 				return fmt.Sprintf("PHANTOM ANSWER: %s returned F(its query) although the server never sent it", desc())
 			}
+			if v := late("its answer"); v != "" && v != "-" {
+				return v
+			}
 			continue
 		}
 		c.Class("call returned an error")
-		dur := r.end.Sub(r.start)
-		if dur > sc.timeout+time.Second {
-			// A timeout (or send error) return crosses a handful of goroutine hand-overs. A process that was
-			// visibly not keeping up excuses a late return only as far as the observed scheduling delay can
-			// explain it (twenty times the largest delay on top of the second of slack), and not at all when
-			// another caller of the same client went through ten calls of its own, begun at least 50 ms apart,
-			// between this call's deadline + 1 s and its return: the scheduler served that goroutine ten times
-			// over at least 450 ms while this one was overdue.
-			lag := maxLag(r.start, r.end)
-			wit := o.witnesses(r.caller, r.start.Add(sc.timeout+time.Second), r.end)
-			switch {
-			case lag <= 50*time.Millisecond:
-				return fmt.Sprintf("LATE RETURN: %s returned its error (%v) more than 1 s after the %v deadline", desc(), r.err, sc.timeout)
-			case dur-sc.timeout > time.Second+20*lag:
-				return fmt.Sprintf("LATE RETURN: %s returned its error (%v) %v after the %v deadline; the largest scheduling delay during the call was %v", desc(), r.err, (dur - sc.timeout).Round(time.Millisecond), sc.timeout, lag)
-			case wit >= 10:
-				return fmt.Sprintf("LATE RETURN: %s returned its error (%v) %v after the %v deadline, while another caller of the same client completed %d calls (begun at least 50 ms apart) between this call's deadline + 1 s and its return (largest scheduling delay during the call %v)", desc(), r.err, (dur - sc.timeout).Round(time.Millisecond), sc.timeout, wit, lag)
-			}
-			c.Class("excused by a process stall")
+		if v := late(fmt.Sprintf("its error (%v)", r.err)); v == "-" {
 			continue
+		} else if v != "" {
+			return v
 		}
 		if !liteclient.IsClientError(r.err) {
 			return fmt.Sprintf("%s failed with an error that is not a liteclient client error: %T %v", desc(), r.err, r.err)
@@ -1778,6 +1819,7 @@ func TestProp(t *testing.T) {
 	t.Run("at-deadline", func(t *testing.T) { core.Run(t, edgeCheck) })
 	t.Run("auth-reconnect", func(t *testing.T) { core.Run(t, authCheck) })
 	t.Run("outage-steady", func(t *testing.T) { core.Run(t, steadyCheck) })
+	t.Run("handshake-hold", func(t *testing.T) { core.Run(t, heldCheck) })
 	t.Run("batch", func(t *testing.T) {
 		core.Run(t, batchCheck)
 		core.Extra(batchCheck.Name, "scenarios", totalScenarios.Load())
@@ -1787,5 +1829,5 @@ func TestProp(t *testing.T) {
 }
 
 func TestReplay(t *testing.T) {
-	core.Replay(t, batchCheck, outageCheck, longPollCheck, dropSeqCheck, edgeCheck, authCheck, steadyCheck)
+	core.Replay(t, batchCheck, outageCheck, longPollCheck, dropSeqCheck, edgeCheck, authCheck, steadyCheck, heldCheck)
 }
